@@ -2,6 +2,7 @@ import HexModel.Wire
 import HexModel.Parse
 import HexModel.Core.Hexital
 import HexModel.Core.Input
+import HexModel.Core.SettingsWire
 /-
 The line-protocol driver: one operation per line in, canonical output lines out.
 -/
@@ -285,6 +286,9 @@ def step (st : DState) (line : String) : DState × List String :=
         | "names" => " ".intercalate (h.indicators.map (·.1))
         | _ => "bad-acc"
       (st, [out])
+  | "settings" :: rest =>
+    let (ps, _) := splitParams rest
+    (st, Hex.Settings.Wire.settingsOp ps)
   | "msnap" :: _ =>
     match st.mgr with
     | some m => (st, snapLines m.candles)
